@@ -20,6 +20,9 @@ pub enum Fault {
     Torn { sector: usize, seed: u64, keep_milli: u32, fill: u8 },
     /// failing system call: 0 = path missing, 1 = path is a directory, 2 = empty file
     Io { kind: u8 },
+    /// several splices of one logical fault, given with offsets into the *original* bytes and ordered
+    /// from the highest offset down (so applying them in order keeps the remaining offsets valid)
+    Multi { kind: String, parts: Vec<(usize, usize, Vec<u8>)> },
 }
 
 impl Fault {
@@ -28,24 +31,61 @@ impl Fault {
             Fault::Splice { kind, .. } => kind.clone(),
             Fault::Torn { fill, .. } => if *fill == 0 { "torn_zero".into() } else { "torn_other".into() },
             Fault::Io { .. } => "io".into(),
+            Fault::Multi { kind, .. } => kind.clone(),
         }
     }
     pub fn to_text(&self) -> String {
         match self {
-            Fault::Splice { kind, start, end, bytes } => format!("splice {} {} {} {}", kind, start, end, hex(bytes)),
+            Fault::Splice { kind, start, end, bytes } => format!("splice {} {} {} {}", kind, start, end, hex_rle(bytes)),
             Fault::Torn { sector, seed, keep_milli, fill } => format!("torn {} {} {} {}", sector, seed, keep_milli, fill),
             Fault::Io { kind } => format!("io {}", kind),
+            Fault::Multi { kind, parts } => format!("multi {} {}", kind, parts.iter().map(|(a, b, x)| format!("{}:{}:{}", a, b, hex_rle(x))).collect::<Vec<_>>().join("|")),
         }
     }
     pub fn from_text(s: &str) -> Option<Fault> {
         let w: Vec<&str> = s.split_whitespace().collect();
         match *w.first()? {
-            "splice" => Some(Fault::Splice { kind: w.get(1)?.to_string(), start: w.get(2)?.parse().ok()?, end: w.get(3)?.parse().ok()?, bytes: unhex(w.get(4).copied().unwrap_or("-"))? }),
+            "splice" => Some(Fault::Splice { kind: w.get(1)?.to_string(), start: w.get(2)?.parse().ok()?, end: w.get(3)?.parse().ok()?, bytes: unhex_rle(w.get(4).copied().unwrap_or("-"))? }),
             "torn" => Some(Fault::Torn { sector: w.get(1)?.parse().ok()?, seed: w.get(2)?.parse().ok()?, keep_milli: w.get(3)?.parse().ok()?, fill: w.get(4)?.parse().ok()? }),
             "io" => Some(Fault::Io { kind: w.get(1)?.parse().ok()? }),
+            "multi" => {
+                let mut parts = Vec::new();
+                for p in w.get(2)?.split('|') {
+                    let mut it = p.splitn(3, ':');
+                    parts.push((it.next()?.parse().ok()?, it.next()?.parse().ok()?, unhex_rle(it.next()?)?));
+                }
+                Some(Fault::Multi { kind: w.get(1)?.to_string(), parts })
+            }
             _ => None,
         }
     }
+}
+
+/// hex with a run-length form for long repeats: "r<count>x<hex of unit>" segments joined by '.'
+fn hex_rle(b: &[u8]) -> String {
+    if b.len() < 4096 {
+        return hex(b);
+    }
+    // find a short period
+    for period in 1..=64usize {
+        if b.len() % period == 0 && b.chunks(period).all(|c| c == &b[..period]) {
+            return format!("r{}x{}", b.len() / period, hex(&b[..period]));
+        }
+    }
+    hex(b)
+}
+fn unhex_rle(s: &str) -> Option<Vec<u8>> {
+    if let Some(rest) = s.strip_prefix('r') {
+        let (n, unit) = rest.split_once('x')?;
+        let u = unhex(unit)?;
+        let n: usize = n.parse().ok()?;
+        let mut v = Vec::with_capacity(n * u.len());
+        for _ in 0..n {
+            v.extend_from_slice(&u);
+        }
+        return Some(v);
+    }
+    unhex(s)
 }
 
 fn hex(b: &[u8]) -> String {
@@ -108,6 +148,15 @@ pub fn apply(base: &[u8], other: &[u8], f: &Fault) -> Vec<u8> {
             out
         }
         Fault::Io { .. } => base.to_vec(),
+        Fault::Multi { parts, .. } => {
+            let mut cur = base.to_vec();
+            for (a, b, x) in parts {
+                let s = (*a).min(cur.len());
+                let e = (*b).min(cur.len()).max(s);
+                cur.splice(s..e, x.iter().copied());
+            }
+            cur
+        }
     }
 }
 
@@ -288,6 +337,114 @@ pub fn enumerate_singles(b: &Base, seed: u64, thorough: bool) -> Vec<Fault> {
         out.push(sp("leading_garbage", 0, 0, b"\xef\xbb\xbf"));
         out.push(sp("leading_garbage", 0, 0, b"\n\n\n"));
         out.push(sp("leading_garbage", 0, 0, b"garbage\n"));
+    }
+
+    // --- product-preserving / cross-field pairs: two header values changed together so that the sizes
+    //     derived from them still agree (a lone change fails early; the pair reaches deeper code)
+    {
+        let num_of = |key: &str| m.numbers.iter().find(|n| n.key == key);
+        let mut pair = |a: &crate::voicegen::NumSpan, av: String, b: &crate::voicegen::NumSpan, bv: String, out: &mut Vec<Fault>| {
+            // later offset first, so that the earlier splice's offsets stay valid
+            let (first, fv, second, sv) = if a.start > b.start { (a, av, b, bv) } else { (b, bv, a, av) };
+            out.push(Fault::Multi { kind: "hdr_pair".into(), parts: vec![(first.start, first.end, fv.into_bytes()), (second.start, second.end, sv.into_bytes())] });
+        };
+        let streams: Vec<String> = m.lines.iter().filter_map(|l| l.key.strip_prefix("VECTOR_LENGTH[").map(|x| x.trim_end_matches(']').to_string())).collect();
+        for st in &streams {
+            if let (Some(vl), Some(nw)) = (num_of(&format!("VECTOR_LENGTH[{}]", st)), num_of(&format!("NUM_WINDOWS[{}]", st))) {
+                let (a, b) = (vl.value, nw.value);
+                if a != b {
+                    pair(vl, b.to_string(), nw, a.to_string(), &mut out); // swapped
+                }
+                pair(vl, "1".into(), nw, (a * b).to_string(), &mut out);
+                pair(vl, (a * b).to_string(), nw, "1".into(), &mut out);
+                if a % 2 == 0 {
+                    pair(vl, (a / 2).to_string(), nw, (b * 2).to_string(), &mut out);
+                }
+                if b % 2 == 0 {
+                    pair(vl, (a * 2).to_string(), nw, (b / 2).to_string(), &mut out);
+                }
+                pair(vl, (a + 1).to_string(), nw, (b.saturating_sub(1)).to_string(), &mut out);
+                pair(vl, (a.saturating_sub(1)).to_string(), nw, (b + 1).to_string(), &mut out);
+            }
+        }
+        if let (Some(ns), Some(nst)) = (num_of("NUM_STREAMS"), num_of("NUM_STATES")) {
+            pair(ns, nst.value.to_string(), nst, ns.value.to_string(), &mut out);
+        }
+    }
+
+    // --- size stress: legal-looking but enormous structures (deep trees, long lists, long lines)
+    if !b.heavy || thorough {
+        let tree_ranges: Vec<&crate::voicegen::RangeSpan> = m.ranges.iter().filter(|r| r.key.contains("TREE")).collect();
+        if let Some(tr) = tree_ranges.last() {
+            // the big structure is appended after the data and the range is pointed at it
+            let mk = |body: Vec<u8>, out: &mut Vec<Fault>, kind: &str| {
+                let a = len - m.data_start;
+                let e = a + body.len() - 1;
+                out.push(Fault::Multi { kind: kind.into(), parts: vec![(len, len, body), (tr.start, tr.end, format!("{}-{}", a, e).into_bytes())] });
+            };
+            for depth in [2_000usize, 60_000, 250_000] {
+                // chain-shaped tree: node k asks a question, "no" -> leaf, "yes" -> node k+1
+                let mut t = String::from("QS Q1 { \"*-a+*\" }\n\n{*}[2]\n{\n");
+                for k in 0..depth {
+                    let next = if k + 1 < depth { format!("-{}", k + 1) } else { "\"x_1\"".to_string() };
+                    t.push_str(&format!(" {} Q1 \"x_1\" {} \n", if k == 0 { "0".to_string() } else { format!("-{}", k) }, next));
+                }
+                t.push_str("}\n");
+                mk(t.into_bytes(), &mut out, "stress_deep_tree");
+            }
+            {
+                let mut t = String::new();
+                for k in 0..60_000 {
+                    t.push_str(&format!("QS Q{} {{ \"*-a+*\" }}\n", k));
+                }
+                t.push_str("\n{*}[2]\n \"x_1\"\n");
+                mk(t.into_bytes(), &mut out, "stress_many_questions");
+            }
+            {
+                let mut t = String::from("QS Q1 { \"*-a+*\" }\n\n");
+                for k in 0..60_000 {
+                    t.push_str(&format!("{{*}}[{}]\n \"x_1\"\n\n", 2 + k % 5));
+                }
+                mk(t.into_bytes(), &mut out, "stress_many_trees");
+            }
+            {
+                let mut t = String::from("QS Q1 { ");
+                for k in 0..80_000 {
+                    t.push_str(if k == 0 { "\"*-a+*\"" } else { ",\"*-a+*\"" });
+                }
+                t.push_str(" }\n\n{*}[2]\n \"x_1\"\n");
+                mk(t.into_bytes(), &mut out, "stress_many_patterns");
+            }
+        }
+        if let Some(l) = m.lines.iter().find(|l| l.key == "COMMENT") {
+            out.push(sp("stress_long_value", l.value_start, l.value_start, &vec![b'x'; 2_000_000]));
+        }
+        if let Some(l) = m.lines.iter().find(|l| l.key == "STREAM_TYPE") {
+            out.push(sp("stress_long_value", l.value_start, l.value_start, "MCP,".repeat(200_000).as_bytes()));
+        }
+        if let Some(l) = m.lines.iter().find(|l| l.key == "GV_OFF_CONTEXT") {
+            out.push(sp("stress_long_value", l.value_start, l.value_start, "\"*-a+*\",".repeat(100_000).as_bytes()));
+        }
+        if let Some(l) = m.lines.iter().find(|l| l.key.starts_with("OPTION[")) {
+            out.push(sp("stress_long_value", l.value_start, l.value_start, "K=1,".repeat(200_000).as_bytes()));
+        }
+        if let Some(l) = m.lines.first() {
+            out.push(sp("stress_many_lines", l.start, l.start, "JUNK_KEY:1\n".repeat(150_000).as_bytes()));
+        }
+        if let Some(w) = m.text_ranges.iter().find(|r| r.kind == "win") {
+            let mut t = String::from("100000");
+            for _ in 0..100_000 {
+                t.push_str(" 0.5");
+            }
+            t.push('\n');
+            // window appended after the data, its STREAM_WIN entry pointed there
+            if let Some(rg) = m.ranges.iter().find(|r| r.key.starts_with("STREAM_WIN") && m.data_start + r.a == w.start) {
+                let a = len - m.data_start;
+                let body = t.into_bytes();
+                let e = a + body.len() - 1;
+                out.push(Fault::Multi { kind: "stress_huge_window".into(), parts: vec![(len, len, body), (rg.start, rg.end, format!("{}-{}", a, e).into_bytes())] });
+            }
+        }
     }
 
     // --- non UTF-8 bytes in each header line value and at section edges
